@@ -3,7 +3,7 @@
 from vpbt import gfi_hist
 
 CFG = {"ops": ["regen"], "kinds": ["static", "scan", "dimap"], "argchange": False}
-CHECKS = {"regen_weight", "regen_empty"}
+CHECKS = {"regen_weight", "regen_empty", "regen_redrawn"}
 TOP = ["static", "static", "scan", "dimap"]
 
 
